@@ -123,6 +123,8 @@ DROP_LIST = [
     "`debug_assert*!` statements",
     "return type `T` rewritten to `(r: T)` so that the contract can name the result",
     "closure parameter `|_|` renamed to `|_e|`",
+    "`for x in e` rewritten to `for x in it: e` where a template says so (names Verus's ghost iterator; no executable effect)",
+    "inserted text is ghost only: requires/ensures/invariant/decreases clauses and proof { } blocks",
     "`Self` in extracted signatures is kept; items not listed in the template are not part of the unit",
 ]
 
@@ -135,6 +137,8 @@ class VerusBlock:
         self.pre = ""
         self.loops = {}
         self.loopbody = {}
+        self.loopend = {}
+        self.post = ""
         self.tail = ""
         self.subst = []
         self.line_start = None
@@ -204,6 +208,13 @@ def render_fn(doc, it, blk):
         if n >= len(loops):
             raise Undecided("lost anchor: loop %d of `%s` not found" % (n, blk.key))
         ins.append((loops[n]["body_start"] + 1, "\n" + txt.rstrip() + "\n"))
+    for n, txt in blk.loopend.items():
+        loops = it.get("loops", [])
+        if n >= len(loops):
+            raise Undecided("lost anchor: loop %d of `%s` not found" % (n, blk.key))
+        ins.append((loops[n]["body_end"] - 1, "\n" + txt.rstrip() + "\n"))
+    if blk.post.strip():
+        ins.append((it["body_end"] - 1, "\n" + blk.post.rstrip() + "\n"))
     if blk.tail.strip():
         if "tail_start" not in it:
             raise Undecided("lost anchor: `%s` has no tail expression for the //@@ tail hint" % blk.key)
@@ -241,7 +252,8 @@ def build_verus_unit(template_path, repo=None):
          //@@ source <path relative to repo>            selects the file for following blocks
          //@@ fn <item key> [ret=<name>] [as=<verus fn name suffix>] [ob=<obligation name>] [allow_bare_loops=1]
          //@@ spec | //@@ pre | //@@ loop <n> (invariant before the loop body brace) | //@@ loopbody <n> (proof hint
-         at the start of the loop body) | //@@ tail (proof hint before the tail expression) | //@@ subst <from> ==> <to>
+         at the start of the loop body) | //@@ loopend <n> (proof hint at the end of the loop body) | //@@ post (proof hint at the
+         end of the function body) | //@@ tail (proof hint before the tail expression) | //@@ subst <from> ==> <to>
          //@@ end
          //@@ item <item key>          (verbatim copy of a non-fn item without attributes)
     """
@@ -290,6 +302,11 @@ def build_verus_unit(template_path, repo=None):
                 elif t.startswith("//@@ loopbody "):
                     section = ("loopbody", int(t.split()[2]))
                     blk.loopbody[section[1]] = ""
+                elif t.startswith("//@@ loopend "):
+                    section = ("loopend", int(t.split()[2]))
+                    blk.loopend[section[1]] = ""
+                elif t == "//@@ post":
+                    section = "post"
                 elif t == "//@@ tail":
                     section = "tail"
                 elif t.startswith("//@@ subst "):
@@ -302,6 +319,10 @@ def build_verus_unit(template_path, repo=None):
                         blk.pre += lines[i] + "\n"
                     elif section == "tail":
                         blk.tail += lines[i] + "\n"
+                    elif section == "post":
+                        blk.post += lines[i] + "\n"
+                    elif isinstance(section, tuple) and section[0] == "loopend":
+                        blk.loopend[section[1]] += lines[i] + "\n"
                     elif isinstance(section, tuple) and section[0] == "loop":
                         blk.loops[section[1]] += lines[i] + "\n"
                     elif isinstance(section, tuple):
